@@ -70,6 +70,10 @@ CLAIMED = {
          'Matcher, quantifiers, class algebra: for all inputs. C12_same_language is PARTIAL: proved under escapes_faithful - it is refuted for \\w \\W \\s \\S outside a class, which the code hands to Python re (known finding, pinned by two tests of the suite). What a translated text matches in Python re is observed, not proved. Validity (RegexError) is checked on corpora only; back-references, lazy quantifiers, flags i/m are outside the model. Six defects were fixed in /repo.',
          'Trusted: Coq kernel; Python re; Gen/C12Sets.v (unicodedata for \\d \\w \\s \\p{..}, implementation tables for \\i \\c, Python re probes for py_w py_s); harness rendering of expressions. No axioms.',
          'DESIGN.md §6 C12'),
+ 'C10': ('Coq proofs: the bounds declared by the 13 integer classes (T-data regenerated from the classes) are the XSD bounds; the integer constructor = lexical integer within bounds for every type and string; canonical integer strings re-parse to the same value; hexBinary and base64Binary codecs round-trip for all octet sequences. Correspondence of generated lexical forms through the class, is_valid, xs:T(), cast as, castable as and from xs:untypedAtomic against the Coq recognizers / make_int / codecs',
+         'Integers, hexBinary, base64Binary: for all inputs of the model; recognizers for decimal / boolean / double / float are executable specifications compared by correspondence. PARTIAL: lexical spaces of date/time, duration, QName, URI and string-derived types are not modelled (agreement of the cast paths only); canonical form of doubles is a known finding (format only); CPython int()/float()/codecs are externals. Seven defects were fixed in /repo.',
+         'Trusted: Coq kernel; Gen/C10Tables.v T-data; harness whitespace collapse; stdlib Decimal* lemmas (no axioms).',
+         'DESIGN.md §6 C10'),
 }
 
 NOT_YET = {}
